@@ -3,7 +3,7 @@
 (* Text is a sequence of lines                                                    *)
 (*   k    "line" (anything unguarded) | "inl" (rule with an inline marker)        *)
 (*        | "open" (a marker alone on its line: opens a paragraph) | "blank"      *)
-(*        | "close" (a closing brace)                                             *)
+(*        | "close" (a closing brace) | "bopen" (a line that opens a block)       *)
 (*   key  the text without the marker (whitespace-insensitive identity)           *)
 (*   dk   "only" | "exclude" | ""      fs   filters (sequence)    ind  indentation *)
 (* Reference semantics (the property): a guarded rule / paragraph (the opener up  *)
@@ -14,7 +14,7 @@
 (* raw line: "keep" strips the marker of the FIRST occurrence, "remove" deletes   *)
 (* ALL occurrences - where an occurrence is any line that CONTAINS the raw text,  *)
 (* i.e. the same directive at the same or a deeper indentation.                   *)
-EXTENDS Policy, SequencesExt
+EXTENDS Policy, SequencesExt, FiniteSets
 
 Marked(ln)   == ln.k \in {"inl", "open"}
 Same(ln, d)  == ln.k = d.k /\ ln.dk = d.dk /\ ln.fs = d.fs /\ ln.key = d.key
@@ -27,7 +27,9 @@ Blanks(s, i) == {j \in (i + 1)..Len(s) : s[j].k = "blank"}
 ParaEnd(s, i) == IF Blanks(s, i) = {} THEN Len(s) ELSE MinOf(Blanks(s, i))
 \* input contract: a paragraph ends at a blank line before the block closes
 \* (and holds at least one line: the removal pattern is raw \n body \n\n)
-Terminated(s, i) == Blanks(s, i) # {} /\ ParaEnd(s, i) > i + 1 /\ \A j \in i..ParaEnd(s, i) : s[j].k # "close"
+\* a closing brace inside the paragraph must close a block opened inside it ("bopen": a line ending with "{")
+Balanced(s, i, j) == Cardinality({k \in i..j : s[k].k = "close"}) <= Cardinality({k \in i..j : s[k].k = "bopen"})
+Terminated(s, i) == Blanks(s, i) # {} /\ ParaEnd(s, i) > i + 1 /\ \A j \in i..ParaEnd(s, i) : Balanced(s, i, j)
 
 Drop(s, D) == LET keep == {i \in DOMAIN s : i \notin D}
                   F[n \in 0..Len(s)] == IF n = 0 THEN <<>> ELSE IF n \in keep THEN Append(F[n - 1], s[n]) ELSE F[n - 1]
@@ -56,7 +58,11 @@ FileRef(s, c, i) ==
     ELSE <<s[i]>> \o FileRef(s, c, i + 1)
 FileOK(src, out, c) == NonBlank(out) = NonBlank(FileRef(src, c, 1))
 \* a guarded paragraph may hold inline-guarded rules; an opener inside a paragraph is not part of the contract
-FileInContract(s) == \A i \in DOMAIN s : s[i].k = "open" => Terminated(s, i) /\ \A j \in (i + 1)..ParaEnd(s, i) : s[j].k # "open"
+\* ... and an inline-guarded rule inside a paragraph is not written a second time elsewhere in the file (removing
+\* the other copy blanks this one too and cuts the paragraph short: reported as a lead, not judged)
+FileInContract(s) == \A i \in DOMAIN s : s[i].k = "open" =>
+                        /\ Terminated(s, i)
+                        /\ \A j \in (i + 1)..ParaEnd(s, i) : s[j].k # "open" /\ (s[j].k = "inl" => \A k \in DOMAIN s \ {j} : ~Same(s[k], s[j]))
 
 \* ---- algorithm model: Run = scan once, apply in order to the CURRENT text
 Dirs(s) == SelectSeq(s, Marked)
